@@ -420,7 +420,10 @@ class DownloadNode:
                     umid="j60Ojg")
             when = now()
             if isinstance(result, Failure):
-                # this catches failures in decode or ciphertext hash
+                # this catches failures in decode or ciphertext hash. The
+                # fetcher that gave us these blocks has stopped: it must not
+                # stay the active segment, or no later segment would start.
+                self._active_segment = None
                 for (d,c,seg_ev) in self._extract_requests(segnum):
                     seg_ev.error(when)
                     eventually(self._deliver, d, c, result)
